@@ -127,6 +127,17 @@ pub trait Property: Sync {
     fn required_probes(&self) -> Vec<&'static str> {
         vec![]
     }
+    /// A second engine run after the seeded batch (C19: Miri's seeded scheduler).
+    fn second_engine(&self, _seed: u64, _tier: Tier) -> Option<SecondEngine> {
+        None
+    }
+}
+
+pub struct SecondEngine {
+    pub evidence: J,
+    /// (replay document, failure) per violation, already confirmed by a fresh re-execution
+    pub violations: Vec<(J, Failure)>,
+    pub harness_errors: Vec<String>,
 }
 
 thread_local! {
@@ -385,6 +396,30 @@ pub fn check<P: Property>(p: &P, seed: u64, tier: Tier) -> CheckOutcome {
             }
         }
     }
+    let second = p.second_engine(seed, tier);
+    let mut second_evidence = J::Null;
+    if let Some(se) = second {
+        second_evidence = se.evidence;
+        for e in se.harness_errors {
+            harness_error = true;
+            lines.push(format!("HARNESS-ERROR property={} second engine: {e}", p.id()));
+        }
+        for (n, (doc, failure)) in se.violations.into_iter().enumerate() {
+            if let Some(k) = known.iter().find(|k| k.property == p.id() && k.signature == failure.signature) {
+                known_hits.entry(failure.signature.clone()).or_insert_with(|| k.text.clone());
+                continue;
+            }
+            if !reported.insert(failure.signature.clone()) {
+                continue;
+            }
+            let _ = std::fs::create_dir_all(format!("{dir}/replays"));
+            let path = format!("{dir}/replays/{}-engine2-{}-{}.json", p.id(), seed, n);
+            std::fs::write(&path, serde_json::to_string_pretty(&doc).unwrap()).expect("write replay");
+            violations += 1;
+            lines.push(format!("VIOLATION property={} replay={}", p.id(), path));
+            lines.push(format!("  class={} signature={} detail={}", failure.class, failure.signature, failure.detail));
+        }
+    }
     for k in known.iter().filter(|k| k.property == p.id()) {
         if res.agg.counters.get(&format!("known.{}", k.signature)).copied().unwrap_or(0) > 0 {
             known_hits.entry(k.signature.clone()).or_insert_with(|| k.text.clone());
@@ -433,6 +468,7 @@ pub fn check<P: Property>(p: &P, seed: u64, tier: Tier) -> CheckOutcome {
             "components": p.components(),
             "known_findings_hit": known_hits.keys().collect::<Vec<_>>(),
             "workers": workers(),
+            "second_engine": second_evidence,
         },
         "assumptions": p.assumptions(),
         "wall_s": res.wall_s,
